@@ -288,12 +288,20 @@ class Check:
         rep["disagreements"] = []
         rep["compared"] = 0
         rep["distinct_nontrivial"] = measure_distinct(cases_p, impl_p) if meta["cases"] > 0 else meta.get("stats", {}).get("distinct_nontrivial", 0)
-        if eng.get("model", True) and meta["cases"] > 0:
+        # search rounds look for a concrete failing input with the implementation-only oracles: the model is only
+        # needed there to decide conditional oracle failures
+        in_search = tag.startswith(".search")
+        if in_search and not meta.get("conditional_failures"):
+            rep["model_skipped"] = "search round without conditional oracle failures"
+        elif eng.get("model", True) and meta["cases"] > 0:
             if not self.zmodel_ok:
                 rep["model_skipped"] = "zmodel did not build"
             else:
                 t = time.time()
-                rcm, errm = run_model_parallel(cases_p, model_p, 3000 if self.tier == "thorough" else 1200)
+                mt = 3000 if self.tier == "thorough" else 1200
+                if in_search and max_s is not None:
+                    mt = max(30, min(mt, max_s - dt))
+                rcm, errm = run_model_parallel(cases_p, model_p, mt)
                 rep["model_s"] = round(time.time() - t, 2)
 
                 class _P:
@@ -302,7 +310,9 @@ class Check:
                 p = _P()
                 p.returncode = rcm
                 p.stderr = errm.encode()
-                if p.returncode != 0:
+                if p.returncode != 0 and in_search:
+                    rep["model_skipped"] = "model run cut by the search box"
+                elif p.returncode != 0:
                     self.oblige(f"model driver runs engine {name}", False, p.stderr.decode(errors="replace")[-400:])
                 else:
                     rep["disagreements"], rep["compared"] = diff_streams(cases_p, impl_p, model_p)
@@ -382,14 +392,14 @@ class Check:
                 left = t_end - time.time()
                 if left < 5:
                     break
-                rep = self.run_engine(eng, "thorough" if k > 1 else self.tier, self.seed + 7919 * k, focus=focus, tag=f".search{k}", max_s=left)
+                rep = self.run_engine(eng, self.tier, self.seed + 7919 * k, focus=focus, tag=f".search{k}", max_s=left)
                 rep["search_round"] = k
                 self.engine_reports.append(rep)
                 meta = rep.get("meta") or {}
                 for of in meta.get("oracle_failures", []):
                     if self.relevant(of, eng["name"]):
                         found = True
-            if found or k >= (3 if self.tier == "quick" else 20):
+            if found or k >= (6 if self.tier == "quick" else 20):
                 break
         known = self.known()
         before = len(self.violations)
